@@ -31,6 +31,13 @@ def simplification_items(cols, roles, depth, hist):
             items.append({"op": "extend", "ops": {existing: O("+", C(existing), V(1))}})
             items.append({"op": "extend", "ops": {z: O("+", C(existing), C(A))}})
         items.append({"op": "extend", "ops": {A: O("+", C(B), V(1)), B: O("+", C(A), V(1))}})
+    if K and A and B:
+        # merge eligibility of consecutive windowed extends: same partition, order_by lists that are
+        # permutations of each other, reverse sets that differ
+        z = menus._new(cols)
+        for ob, rv in (([A, B], []), ([B, A], []), ([A, B], [A]), ([A, B], [B]), ([A], [A])):
+            items.append({"op": "extend", "ops": {z: F("_row_number")}, "partition_by": [K[0]], "order_by": ob, "reverse": rv})
+        items.append({"op": "extend", "ops": {z: M("cumsum", C(B))}, "partition_by": [K[0]], "order_by": [A], "reverse": [A]})
     # re-selecting columns an intermediate select/drop removed
     orig = list(H.TABLES["d"])
     gone = [c for c in orig if c not in cols]
@@ -133,7 +140,11 @@ def work(state_hists, open_ids, kd, menu_name):
             b = step.get("b")
             if isinstance(b, dict) and "table" in b:
                 need |= set(H.hist_tables(b))
-            for data in inputs.data_maps(sorted(need), kd, 1, inputs.D_ROWS_Q, inputs.E_ROWS_Q):
+            datas = inputs.data_maps(sorted(need), kd, 1, inputs.D_ROWS_Q, inputs.E_ROWS_Q)
+            if step.get("order_by") or any(st.get("order_by") for st in hist["steps"]):
+                # window orders need null-free, tie-free rows whose two numeric columns sort differently
+                datas = datas + [dm for dm in inputs.data_maps(sorted(need), kd, 1, inputs.D_ROWS_NN, inputs.E_ROWS_Q) if len(dm["d"]["rows"]) > 0]
+            for data in datas:
                 part.count("traces_validated_against_impl")
                 # the pre-state is evaluated once per input and shared by all its outgoing transitions
                 ck = repr(sorted((k, t["rows"]) for k, t in data.items()))
@@ -199,7 +210,7 @@ def run(tier):
         exhaustive=True,
         rule=f"every outgoing transition (core menu + simplification entries: common-target extends, reads of replaced columns, swaps, re-selection/drop/order of columns an earlier select/drop removed, checked joins) of every state at depth <= {src_depth}"
         + (" (depth-2 sources restricted to extend/select/drop/rename/order chains)" if tier != "quick" else "")
-        + f", each on all multisets of <= {kd} rows over the 3-row alphabets",
+        + f", each on all multisets of <= {kd} rows over the 3-row alphabets (transitions involving an ordered window also on all multisets of <= {kd} rows of a null-free 4-row alphabet whose numeric columns sort differently)",
     )
 
 
